@@ -398,6 +398,47 @@ def dispatch (env : Env) (j : Json) : Json :=
         (w', outs ++ [Json.mkObj [("exc", match res with | .ok () => Json.null | .error e => Json.str (errName e)),
                                    ("out", outText w')]])) (w0, [])
       Json.mkObj [("init_out", outText w0), ("steps", Json.arr steps.toArray)]
+  | some "overlap.run" =>
+    -- inputs: list of lists of locs; items are (key, id); groups are reported as ids per input
+    let byBar := getBool j "by_barcodes" true
+    let o : Order := if byBar then .barcodesAndCoordinate else .coordinate
+    let cs := contigsOf j
+    let inputs : List (List Json) := (getArr j "inputs").map (fun x => match x with | Json.arr a => a.toList | _ => [])
+    let keyed : Except PyErr (List (List (Key × Nat))) :=
+      (inputs.foldl (fun (acc : Except PyErr (List (List (Key × Nat)) × Nat)) inp =>
+        match acc with
+        | .error e => .error e
+        | .ok (done, n) =>
+          match inp.foldl (fun (a2 : Except PyErr (List (Key × Nat) × Nat)) lj =>
+              match a2 with
+              | .error e => .error e
+              | .ok (l, k) => match mkKey o cs (locOf lj) with
+                | .ok key => .ok (l ++ [(key, k)], k + 1)
+                | .error e => .error e) (.ok ([], n)) with
+          | .error e => .error e
+          | .ok (l, n') => .ok (done ++ [l], n')) (.ok ([], 0))).map (·.1)
+    match keyed with
+    | .error e => Json.mkObj [("exc", Json.str (errName e))]
+    | .ok its =>
+      let intOf (k : KV) : Int := match k with | .int i => i | _ => 0
+      let ops : OvOps (Key × Nat) := {
+        lt := fun a b => match keyLt a.1 b.1 with | .ok true => true | _ => false,
+        same := fun a b => decide (a.1.chr = b.1.chr) && (!byBar || (decide (a.1.tumor = b.1.tumor) && decide (a.1.normal = b.1.normal))),
+        start := fun a => intOf a.1.start,
+        stop := fun a => intOf a.1.stop }
+      let groups := ovAll ops (totalLen' its + 1) its
+      let gj (gs : List (List (List (Key × Nat)))) : Json :=
+        Json.arr (gs.map (fun g => Json.arr (g.map (fun slot => Json.arr (slot.map (fun p => Json.num p.2)).toArray)).toArray)).toArray
+      match getStr? j "allele" with
+      | none => Json.mkObj [("groups", gj groups)]
+      | some relName =>
+        let rel : AlleleRel := if relName == "Intersects" then .intersects else if relName == "Subset" then .subset else .equality
+        -- alleles: parallel arrays indexed by item id: {"ref": "...", "alts": [...]}
+        let alle := getArr j "alleles"
+        let al : AlOps (Key × Nat) := {
+          ref := fun a => txt ((alle[a.2]?.bind (fun x => getStr? x "ref")).getD ""),
+          alts := fun a => (alle[a.2]?.map (fun x => linesOf x "alts")).getD [] }
+        Json.mkObj [("groups", gj (alleleAll al rel groups))]
   | some "spec.domain" =>
     let S : Spec.SCtx := { enums := Generated.enums, H := floatHostOf j }
     let ty : Option Spec.ColType := match getStr? j "cls" with
